@@ -541,13 +541,31 @@ tl::expected<std::string, errors> canonicalize_opaque_pathname(
   // Set dummyURL's path to the empty string.
   // Let parseResult be the result of running URL parsing given value with
   // dummyURL as url and opaque path state as state override.
-  if (auto url =
-          ada::parse<url_aggregator>("fake:" + std::string(input), nullptr)) {
-    // Return the result of URL path serializing dummyURL.
-    return std::string(url->get_pathname());
+  //
+  // The opaque path state is run directly: parsing "fake:" + value without a
+  // state override trimmed leading/trailing C0 control or space from the value
+  // and, for a value starting with '/', ran the hierarchical path state instead
+  // (path percent-encode set, dot-segment removal).
+  std::string value(input);
+  helpers::remove_ascii_tab_or_newline(value);
+  // '?' and '#' leave the opaque path state: the rest goes to dummyURL's query
+  // or fragment, which is not part of the result.
+  std::string_view path = value;
+  const size_t delimiter = path.find_first_of("?#");
+  if (delimiter != std::string_view::npos) {
+    path = path.substr(0, delimiter);
   }
-  // If parseResult is failure, then throw a TypeError.
-  return tl::unexpected(errors::type_error);
+  // UTF-8 percent-encode using the C0 control percent-encode set; a space that
+  // is directly followed by '?' or '#' is written as "%20".
+  std::string result = ada::unicode::percent_encode(
+      path, character_sets::C0_CONTROL_PERCENT_ENCODE);
+  if (delimiter != std::string_view::npos && !path.empty() &&
+      path.back() == ' ') {
+    result.pop_back();
+    result.append("%20");
+  }
+  // Return the result of URL path serializing dummyURL.
+  return result;
 }
 
 tl::expected<std::string, errors> canonicalize_search(std::string_view input) {
